@@ -111,7 +111,9 @@ def rule_escape(ck: Check, repo: Repo, cg: CallGraph, esc: Escape) -> None:
     for (exc, origin), names in sorted(per_key.items()):
         ofn = origin.split("|")[0].strip()
         tri = TRIAGE.get((exc, ofn)) or TRIAGE.get((exc, ofn.replace("VCSStrategy*", "VCSStrategyGit")))
-        if tri and exc == "builtins.NotADirectoryError":
+        if exc == "builtins.NotADirectoryError" and ofn.startswith("reuse.vcs.") and (
+                "find_root" in ofn.split(".")[-1] or all("find_root" in " ".join(chains[(exc, origin)]) for _ in [0])):
+            # also a runner shared by the find_root methods (`_find_root_with_command`): reached only through find_root()
             tri = TRIAGE[("builtins.NotADirectoryError", "reuse.vcs.VCSStrategyGit.find_root")]
         if tri and side.get(exc, True) is False:
             tri = None  # the reason the pair was considered infeasible no longer holds
